@@ -316,8 +316,18 @@ def selectors(ctx, o, S):
             if id(c) in done:
                 continue
             pr = parse_resv(c, S['balance'])
+            # statement form of the selector: `if self.balance: x = reserved(r, d) else: x = reserved(r, d, task)`
+            bal = None
+            for t, q in facts.node_conditions(prog, f, c, ctx.typer, expand=True):
+                t2, q2 = facts.norm_cond(t, q)
+                if isinstance(t2, ast.Attribute) and t2.attr == S['balance']:
+                    bal = q2
             if pr is None:
                 o.undecided(f, c, c, "unrecognised ledger query")
+            elif bal is not None and pr['kind'] == ('all' if bal else 'task'):
+                o.site(f, c, f"{src(c)[:60]} under balance_resources == {bal}")
+            elif bal is not None:
+                o.refute(f, c, c, f"ledger query `{src(c)}` uses selector `{pr['kind']}` on the branch balance_resources == {bal} (inverted)")
             else:
                 o.refute(f, c, c, f"ledger query `{src(c)}` ignores balance_resources (selector `{pr['kind']}`): with balancing "
                                   f"{'off, other tasks influence this task' if pr['kind'] == 'all' else 'on, other tasks are ignored'}")
